@@ -101,7 +101,7 @@ SIGNIFICANT = set("#'\"|>:-[*\\\n&!%@`{},?")
 def attr_known(v: str) -> bool:
     """signature of the open finding C17-attr-values: the value starts/ends with white space, or contains a
     character that is significant in the option syntax"""
-    return v != v.strip() or any(c in SIGNIFICANT for c in v) or v == ""
+    return v != v.strip() or any(c in SIGNIFICANT for c in v)
 
 
 def run(ctx):
@@ -209,6 +209,12 @@ def run(ctx):
             ctx.violation(f"HTML form and directive form give different nodes:\n{diff}", {"leg": "R-equivalence", "html": h, "directive": dsp})
 
     # ---- R attr -------------------------------------------------------------------------------------
+    # the open finding C17-attr-values is decided by the model: a mismatch is that finding only if the observed value is
+    # exactly what M predicts with DevUnquoted on (the value travelling through an unquoted option line)
+    rae = tlc.run("HtmlBlocks", tlc.cfg(ctx, "hb_attr_asbuilt.cfg", base_consts("attr", Sigma=set(s2c(ATTR_SIGMA)), MaxLen=na, DevUnquoted=True),
+                                        invariants=["Emit"]), wd=ctx.wd, timeout=3000)
+    ctx.add_tlc("HtmlBlocks_attr_asbuilt", rae, "as-built prediction per value (DevUnquoted)")
+    asbuilt = {c2s(r["val"]): (r["out"][0], c2s(r["out"][1])) for r in rae.records}
     known = 0
     for rec in ra.records:
         v = c2s(rec["val"])
@@ -224,8 +230,12 @@ def run(ctx):
         imgs = list(doc.findall(nodes.image))
         got = imgs[0].get("alt") if len(imgs) == 1 else None
         if got != v:
+            pred = asbuilt.get(v)
+            # (a value with a line break makes the generated option block several lines; M's Decoded reads one key: value pair,
+            # so for such values the finding is recognised by its signature alone)
+            as_built = "\n" in v or pred is not None and ((pred[0] == "ok" and got == pred[1]) or (pred[0] == "error" and got is None))  # (an option block that cannot be tokenised is dropped with a warning)
             ctx.violation(f"<img alt={v!r}>: the attribute value is not carried over unchanged (observed {got!r}, {len(imgs)} image node(s))", case,
-                          finding="C17-attr-values" if attr_known(v) else None)
+                          finding="C17-attr-values" if attr_known(v) and as_built else None)
     ctx.leg("R-attr", values=len(ra.records))
 
     # ---- R filter -----------------------------------------------------------------------------------
